@@ -27,7 +27,7 @@ from .asttypes import (
 
 from .astutil import bistr
 
-from .common import NodeError, astfield
+from .common import NodeError, astfield, next_frag
 
 from .parsex import Mode, parse_ExceptHandler, parse_match_case
 from .code import Code, _code_as_lines
@@ -255,8 +255,18 @@ def _reparse_raw_stmtlike(self: fst.FST, new_lines: list[str], ln: int, col: int
         _reparse_raw_base(stmtlike, new_lines, ln, col, end_ln, end_col, copy_lines, path, True, None,
                           first_lineno, first_line_col_delta)
 
-        if is_elif or getattr(a := stmtlike.a, 'end_col_offset', None) is not None:  # nuking a whole elif will parse but can do bad things to end positions, likewise if new source ends in trailing whitespace which was offset into parents which end at this statement
+        if is_elif:  # nuking a whole elif will parse but can do bad things to end positions
             stmtlike._set_end_pos((a := stmtlike.a).end_lineno, a.end_col_offset)  # setting own position to what it currently is but will also propagate up the tree
+
+        elif (parent := stmtlike.parent) and not stmtlike.next() and getattr(stmtlike.a, 'end_col_offset', None) is not None:  # if new source ends in trailing whitespace this was offset into parents which end at this statement, they end at the statement or its trailing semicolon
+            _, _, end_ln, end_col = stmtlike.loc
+            lines = root._lines
+
+            if (frag := next_frag(lines, end_ln, end_col, len(lines) - 1, 0x7fffffffffffffff)) and frag.src.startswith(';'):
+                end_ln, end_col, _ = frag
+                end_col += 1  # just past the semicolon
+
+            parent._set_end_pos(end_ln + 1, lines[end_ln].c2b(end_col))
 
         return True
 
